@@ -80,6 +80,9 @@ func H_ordered_map() {
 	k := symx.Param("k", 3)
 	keys := []string{"a", "b", "c"}
 	om := data.NewOrderedMap()
+	// Go map iteration order is adversarial during the whole history (Set/Delete range the
+	// internal index maps too), not only while enumerating
+	symx.MapOrder(true)
 	var model []string
 	vals := map[string]int{}
 	names := []string{"0", "1", "2", "3", "4"}
@@ -112,7 +115,6 @@ func H_ordered_map() {
 	}
 	var gotK []string
 	var gotV []int
-	symx.MapOrder(true)
 	om.Range(func(key string, value data.Value) bool {
 		gotK = append(gotK, key)
 		if iv, ok := value.(*data.IntValue); ok {
